@@ -38,13 +38,14 @@ const nDims = 11 // 7 yes/no dimensions + a 2-bit annotation shape (bits 7-8) + 
 var dimNames = []string{"labels", "annotations", "spec-scalar", "spec-nested", "status", "generation", "finalizers", "annotation-key-removed", "annotation-key-added"}
 
 type kind struct {
-	name      string
-	main      rest.RESTCreateUpdateStrategy
-	status    rest.RESTUpdateStrategy // nil: no status subresource
-	subStatus bool
-	mk        func(diff uint, gen int64) runtime.Object
-	spec      func(o runtime.Object) interface{}
-	stat      func(o runtime.Object) interface{}
+	name           string
+	main           rest.RESTCreateUpdateStrategy
+	status         rest.RESTUpdateStrategy // nil: no status subresource
+	subStatus      bool
+	noStatusFields bool // the kind's status type has no fields: a status write cannot change anything
+	mk             func(diff uint, gen int64) runtime.Object
+	spec           func(o runtime.Object) interface{}
+	stat           func(o runtime.Object) interface{}
 }
 
 func meta(diff uint, gen int64) metav1.ObjectMeta {
@@ -87,7 +88,7 @@ func meta(diff uint, gen int64) metav1.ObjectMeta {
 
 func ucKind(main rest.RESTCreateUpdateStrategy) kind {
 	return kind{
-		name: "UpstreamCluster", main: main, status: registry.DefaultStatusRESTStrategy{RESTCreateUpdateStrategy: main}, subStatus: true,
+		name: "UpstreamCluster", main: main, status: registry.DefaultStatusRESTStrategy{RESTCreateUpdateStrategy: main}, subStatus: true, noStatusFields: true,
 		mk: func(diff uint, gen int64) runtime.Object {
 			o := &proxyv1alpha1.UpstreamCluster{ObjectMeta: meta(diff, gen)}
 			o.Spec.Servers = []proxyv1alpha1.UpstreamClusterServer{{Endpoint: "https://a:1"}, {Endpoint: "https://b:1"}}
@@ -411,6 +412,7 @@ func main() {
 	gatewayinstall.Install(scheme.Scheme)
 	c.Assume = []string{
 		"strategies are taken exactly as rest.go registers them: ClusterScopeStorageStrategySingleton (+DefaultStatusRESTStrategy around it) for UpstreamCluster, NewDefaultRESTStrategy(false,false) for RateLimitCondition; because UpstreamClusterStatus has no fields the same generic strategy pair is additionally driven with RateLimitCondition objects (a kind with real status fields)",
+		"the same product runs once more with the kinds, status subresources and strategies found in the stores that the control plane's own REST storage provider builds (over a storage decorator that hands out no storage)",
 		"objects enter through rest.BeforeCreate / rest.BeforeUpdate (k8s.io/apiserver registry), not through etcd-backed storage",
 		"nil versus empty maps/lists are the same value (the pipeline scenarios submit both spellings: the generation must not move); on a status update whose annotations differ the generation is not judged (the statement does not say whether that counts)",
 		"pipeline scenarios: the admission plugin's Admit, then rest.BeforeCreate/BeforeUpdate with the registered strategy, then a JSON round trip as storage does (nil for what was empty); etcd itself is not involved",
@@ -420,6 +422,15 @@ func main() {
 		rlcKind("RateLimitCondition(as registered, no status subresource)", registry.NewDefaultRESTStrategy(false, false), false),
 		rlcKind("RateLimitCondition(generic strategy with status subresource)", registry.ClusterScopeStorageStrategySingleton, true),
 	}
+	// and every resource as the control plane's own storage provider serves it
+	served, err := servedKinds()
+	if err != nil {
+		c.EngineError("served kinds: " + err.Error())
+	}
+	for _, k := range served {
+		c.Outcome("served_kinds", k.name)
+	}
+	kinds = append(kinds, served...)
 	ctx := genericapirequest.NewContext()
 	var tasks []ev.Task
 	for _, k := range kinds {
@@ -472,7 +483,7 @@ func main() {
 						if !reflect.DeepEqual(labels(obj), labels(old)) {
 							c.Violation("status/labels-changed", fmt.Sprintf("%s: status update changed the labels (diff [%s])", k.name, diffNames(d)), nil)
 						}
-						if d&16 != 0 && reflect.DeepEqual(k.stat(obj), k.stat(old)) && k.name != "UpstreamCluster" {
+						if d&16 != 0 && reflect.DeepEqual(k.stat(obj), k.stat(old)) && !k.noStatusFields {
 							c.Violation("status/status-not-updated", fmt.Sprintf("%s: status update did not store the submitted status", k.name), nil)
 						}
 						if same(annotations(obj), annotations(old)) && gen(obj) != g {
